@@ -22,9 +22,9 @@ PROBES = ['stripe_scans', 'blob_released', 'blob_kept_by_eltorito_only', 'link_r
 ASSUMPTIONS = c01.ASSUMPTIONS + ['attributable stripes: a 64-byte stripe header names its blob and offset; tails shorter than 16 bytes are not scanned']
 
 PROFILE = H.Profile('c07', nops=(4, 26), zero_bias=0.3,
-                    allow=('add_fp', 'add_dir', 'add_link', 'rm_link', 'rm_file', 'add_eltorito', 'rm_eltorito', 'restart', 'add_boot_file'),
+                    allow=('add_fp', 'add_dir', 'add_link', 'rm_link', 'rm_file', 'add_eltorito', 'rm_eltorito', 'restart', 'add_boot_file', 'shared_hidden_boot'),
                     weights={'add_fp': 26, 'add_dir': 4, 'add_link': 22, 'rm_link': 16, 'rm_file': 14, 'add_eltorito': 6, 'rm_eltorito': 4,
-                             'restart': 7, 'add_boot_file': 3},
+                             'restart': 7, 'add_boot_file': 3, 'shared_hidden_boot': 2.5},
                     sizes=(0, 0, 1, 8, 64, 65, 100, 2047, 2048, 2049, 4096, 6143, 10000))
 
 
